@@ -20,6 +20,8 @@ fn masked_report(rd: &E57Reader<Dev>, mask_lib: bool) -> Value {
             p["cartesian_bounds"] = json!(0);
             p["spherical_bounds"] = json!(0);
             p["index_bounds"] = json!(0);
+            // get_cartesian_bounds() is a function of the two stored bounds structures
+            p["gcb"] = json!(0);
         }
     }
     let mut images: Vec<Value> = rd.images().iter().map(image_tr).collect();
